@@ -40,6 +40,9 @@ def fragment():
     return f
 
 
+_REUSED = None
+
+
 def style_of(case):
     s = case.get("style", "minimal")
     if s == "minimal":
@@ -66,6 +69,18 @@ def check_case(case, fenced=True):
         return ("foreign:" + lib.exc_bucket(e), "%r -> %s: %s" % (text, type(e).__name__, e))
     if not isinstance(sql, str):
         return ("non-string-output", "%r -> %r" % (text, sql))
+    # a visitor instance that has already translated other filters gives the same clause
+    global _REUSED
+    if _REUSED is None:
+        _REUSED = AstToSqliteSqlVisitor()
+    try:
+        sql2 = _REUSED.visit(ast)
+    except Exception as e:
+        _REUSED = None
+        return ("reused-visitor-differs", "%r: a reused visitor raised %s: %s" % (text, type(e).__name__, e))
+    if sql2 != sql:
+        _REUSED = None
+        return ("reused-visitor-differs", "%r: fresh visitor -> %s ; reused visitor -> %s" % (text, sql, sql2))
     db_sqlite.load(case["rows"])
     try:
         ids = db_sqlite.select_ids(sql)
